@@ -761,7 +761,13 @@ fn safe_register(c: &Case) -> String {
     let path = write_case(c, "reg");
     let (status, out) = run_child(&["--child".into(), "reg".into(), path.to_string_lossy().to_string()], Duration::from_secs(40));
     let _ = std::fs::remove_file(&path);
-    if status == "exit0" { out.trim().to_string() } else { format!("died {status}") }
+    if status == "exit0" {
+        out.trim().to_string()
+    } else if status.contains("exit status: 3") {
+        "died: no answer within the 20 s watchdog of the worker".to_string()
+    } else {
+        format!("died {status}")
+    }
 }
 
 /// `register_two_step` in a child process; `None` = first step not accepted
@@ -1509,6 +1515,80 @@ fn main() {
                 );
             } else if !good {
                 report.notes.push(format!("measurement: {kind} chain of depth {depth} (beyond the claimed 32): {status}"));
+            }
+        }
+    }
+
+    // ---- 3a. layered include DAGs with re-convergent paths (every template of a layer includes
+    //      every template of the next): the number of PATHS is width^layers, the number of templates
+    //      width*layers — registration must stay fast (the `visited` memo of the include walk); a
+    //      worker that does not answer within its 20 s watchdog, confirmed by a solo re-run, is a
+    //      violation ("adding templates never loops")
+    let mut dag_failed = false;
+    for (layers, width) in [(8usize, 2usize), (16, 2), (24, 2), (32, 2), (48, 2), (16, 3), (32, 3)] {
+        if dag_failed {
+            break;
+        }
+        let mut tpls = Vec::new();
+        for l in 0..layers {
+            for w in 0..width {
+                let mut t = TplS::new(&format!("l{l}w{w}"));
+                if l + 1 < layers {
+                    for v in 0..width {
+                        let target = format!("l{}w{v}", l + 1);
+                        match (l + w + v) % 3 {
+                            0 => t.top_includes.push(target),
+                            1 => {
+                                if t.blocks.is_empty() {
+                                    t.blocks.push(BlockS { name: "k".into(), ..Default::default() });
+                                }
+                                t.blocks[0].includes.push(target)
+                            }
+                            _ => {
+                                if t.comps.is_empty() {
+                                    t.comps.push(CompS { name: format!("c_l{l}w{w}"), includes: vec![] });
+                                }
+                                t.comps[0].includes.push(target)
+                            }
+                        }
+                    }
+                }
+                tpls.push(t);
+            }
+        }
+        let c = Case { prefixes: vec![], tpls };
+        report.evaluations += 1;
+        report.oracle_checks += 1;
+        report.count(&format!("layered-dag.{layers}x{width}"));
+        let t0 = Instant::now();
+        let mut imp = safe_register(&c);
+        let first_s = t0.elapsed().as_secs_f64();
+        if imp.starts_with("died") {
+            // confirm on its own (nothing else running in this harness at this point)
+            imp = safe_register(&c);
+        }
+        if !imp.starts_with("ok") {
+            dag_failed = true;
+            report.oracle_failures += 1;
+            report.violation(
+                "property",
+                format!(
+                    "adding templates must end: an acyclic layered include graph ({layers} layers x {width} templates, every template including all {width} of the next layer: {} templates, {width}^{layers} paths) is answered `{}` (first attempt {first_s:.1} s, confirmed by a second run on its own); the unchanged engine registers it in milliseconds",
+                    layers * width,
+                    imp.chars().take(80).collect::<String>()
+                ),
+                replay_json(&c, &imp, serde_json::json!({"layers": layers, "width": width})),
+            );
+        } else if first_s > 10.0 {
+            report.notes.push(format!("measurement: layered include DAG {layers}x{width} registered in {first_s:.1} s"));
+        }
+        // the model: accepted (fuel = number of templates; its walk memoises like the engine's)
+        let req = format!("fin 0 1 {}", set_wire(&c.prefixes, &c.tpls));
+        if let Ok(m) = driver::run_batch(&exe, &[req]) {
+            report.model_comparisons += 1;
+            if imp.starts_with("ok") && m[0] != imp {
+                report.model_disagreements += 1;
+                report.violation("model-mismatch", format!("layered include DAG {layers}x{width}: model `{}` vs implementation `{}`", m[0].chars().take(80).collect::<String>(), imp.chars().take(80).collect::<String>()), replay_json(&c, &imp, serde_json::json!({"stage": "correspondence:finalize-derived"})));
             }
         }
     }
